@@ -2,11 +2,12 @@ import Bng.Model.Index
 /-
   Invariants of the generic "primary map + secondary indexes" model (Bng.Index) and their preservation.
 
-  * `Fresh`      every live primary id is below the id counter            — every flavour, every history
-  * `InvS s`     index `s` and the primary map are mutually inverse        — submgr slot 0 on every history;
-                                                                            every flavour and slot on histories that
-                                                                            satisfy `OnePerKey` and `NoRekey`
-  * `FwdS true`  every live primary's key resolves back to it              — memstore on every history
+  * `Fresh`       every live primary id is below the id counter          — every flavour, every history
+  * `KInv s v`    the entry of key `v` in index `s` and the live primaries carrying `(s, v)` agree in both directions
+                  — submgr slot 0, every key, every history; every flavour, slot and key along histories that are
+                  clean FOR THAT KEY (`OnePerKeyAt c s v`, `NoRekeyAt c s v`), whatever happens to other keys
+  * `FwdS true`   every live primary's key resolves back to it           — memstore, histories whose loads are
+                                                                           address-injective (`LoadsInj`)
 -/
 namespace Bng.Index
 open Bng AMap
@@ -64,38 +65,43 @@ theorem lookup_reindexSlot (cond : Bool) (i : AMap Nat Nat) (old k : Option Nat)
 /-- every live primary id is below the id counter (a generated id never names a live primary) -/
 def Fresh (st : State) : Prop := ∀ id r, AMap.lookup st.prim id = some r → id < st.next
 
+/-- key `v` of index `s`: every live primary carrying `(s, v)` is what the index entry resolves to, and the index
+    entry (if any) points to a live primary carrying `(s, v)` -/
+structure KInv (s : Bool) (v : Nat) (st : State) : Prop where
+  fwd : ∀ id r, AMap.lookup st.prim id = some r → r.key s = some v → AMap.lookup (st.idx s) v = some id
+  bwd : ∀ id, AMap.lookup (st.idx s) v = some id → ∃ r, AMap.lookup st.prim id = some r ∧ r.key s = some v
+
 /-- every live primary's key in slot `s` resolves back to it -/
 def FwdS (s : Bool) (st : State) : Prop :=
   ∀ id r v, AMap.lookup st.prim id = some r → r.key s = some v → AMap.lookup (st.idx s) v = some id
 
-/-- every entry of index `s` points to a live primary carrying that key -/
-def BwdS (s : Bool) (st : State) : Prop :=
-  ∀ v id, AMap.lookup (st.idx s) v = some id → ∃ r, AMap.lookup st.prim id = some r ∧ r.key s = some v
-
-/-- index `s` and the primary map are mutually inverse -/
-structure InvS (s : Bool) (st : State) : Prop where
-  fwd : FwdS s st
-  bwd : BwdS s st
-
-structure Inv (st : State) : Prop where
-  slot : ∀ s, InvS s st
-  fresh : Fresh st
-
-theorem inv_init : Inv init := by
-  refine ⟨fun s => ⟨?_, ?_⟩, ?_⟩
-  · intro id r v h; simp [init] at h
-  · intro v id h; cases s <;> simp [init, State.idx] at h
-  · intro id r h; simp [init] at h
-
-/-- "put": primary `nid` gets record `nr`; index `s` maps `nr`'s key to `nid` and is otherwise unchanged -/
-theorem invS_put {s : Bool} {st st' : State} (hI : InvS s st) (nid : Nat) (nr : Rec)
-    (hprim : ∀ id, AMap.lookup st'.prim id = if id = nid then some nr else AMap.lookup st.prim id)
-    (hidx : ∀ v, AMap.lookup (st'.idx s) v = if nr.key s = some v then some nid else AMap.lookup (st.idx s) v)
-    (hlive : ∀ r v, AMap.lookup st.prim nid = some r → r.key s = some v → nr.key s = some v)
-    (hother : ∀ id' r' v, nr.key s = some v → AMap.lookup st.prim id' = some r' → r'.key s = some v → id' = nid) :
-    InvS s st' := by
+theorem kinv_empty (s : Bool) (v n : Nat) : KInv s v { next := n } := by
   constructor
-  · intro id r v hp hk
+  · intro id r h; simp at h
+  · intro id h; cases s <;> simp [State.idx] at h
+
+theorem kinv_init (s : Bool) (v : Nat) : KInv s v init := kinv_empty s v 1
+
+theorem fresh_init : Fresh init := fun id r h => by simp [init] at h
+
+/-- two live primaries carrying `(s, v)` are the same primary -/
+theorem KInv.unique {s : Bool} {v : Nat} {st : State} (hK : KInv s v st) {id id' : Nat} {r r' : Rec}
+    (h : AMap.lookup st.prim id = some r) (hk : r.key s = some v)
+    (h' : AMap.lookup st.prim id' = some r') (hk' : r'.key s = some v) : id' = id := by
+  have a := hK.fwd id r h hk
+  have b := hK.fwd id' r' h' hk'
+  rw [a] at b
+  simpa using b.symm
+
+/-- "put": primary `nid` gets record `nr`; the entry of `v` becomes `nid` if `nr` carries `(s, v)`, else is unchanged -/
+theorem kinv_put {s : Bool} {v : Nat} {st st' : State} (hK : KInv s v st) (nid : Nat) (nr : Rec)
+    (hprim : ∀ id, AMap.lookup st'.prim id = if id = nid then some nr else AMap.lookup st.prim id)
+    (hidx : AMap.lookup (st'.idx s) v = if nr.key s = some v then some nid else AMap.lookup (st.idx s) v)
+    (hlive : ∀ r, AMap.lookup st.prim nid = some r → r.key s = some v → nr.key s = some v)
+    (hother : nr.key s = some v → ∀ id' r', AMap.lookup st.prim id' = some r' → r'.key s = some v → id' = nid) :
+    KInv s v st' := by
+  constructor
+  · intro id r hp hk
     rw [hprim] at hp
     rw [hidx]
     by_cases e : id = nid
@@ -105,48 +111,45 @@ theorem invS_put {s : Bool} {st st' : State} (hI : InvS s st) (nid : Nat) (nr : 
       simp [hk]
     · simp only [e, if_false] at hp
       by_cases hk' : nr.key s = some v
-      · exact absurd (hother id r v hk' hp hk) e
+      · exact absurd (hother hk' id r hp hk) e
       · simp only [hk', if_false]
-        exact hI.fwd id r v hp hk
-  · intro v x hx
+        exact hK.fwd id r hp hk
+  · intro x hx
     rw [hidx] at hx
     by_cases hk' : nr.key s = some v
     · simp only [hk', if_true, Option.some.injEq] at hx
       subst hx
       exact ⟨nr, by rw [hprim]; simp, hk'⟩
     · simp only [hk', if_false] at hx
-      obtain ⟨r', hr', hkr'⟩ := hI.bwd v x hx
+      obtain ⟨r', hr', hkr'⟩ := hK.bwd x hx
       by_cases e : x = nid
       · subst e
-        exact absurd (hlive r' v hr' hkr') hk'
+        exact absurd (hlive r' hr' hkr') hk'
       · exact ⟨r', by rw [hprim]; simp [e, hr'], hkr'⟩
 
 /-- delete of the live primary `k` (record `rk`): index `s` loses `rk`'s key (by value, or conditionally) -/
-theorem invS_delete {s : Bool} {st st' : State} (hI : InvS s st) (k : Nat) (rk : Rec) (cond : Bool)
+theorem kinv_delete {s : Bool} {v : Nat} {st st' : State} (hK : KInv s v st) (k : Nat) (rk : Rec) (cond : Bool)
     (hk : AMap.lookup st.prim k = some rk)
     (hprim : ∀ id, AMap.lookup st'.prim id = if id = k then none else AMap.lookup st.prim id)
-    (hidx : ∀ v, AMap.lookup (st'.idx s) v = AMap.lookup (idxDrop cond (st.idx s) (rk.key s) k) v) :
-    InvS s st' := by
+    (hidx : AMap.lookup (st'.idx s) v = AMap.lookup (idxDrop cond (st.idx s) (rk.key s) k) v) :
+    KInv s v st' := by
   constructor
-  · intro id r v hp hkey
+  · intro id r hp hkey
     rw [hprim] at hp
     by_cases e : id = k
     · simp [e] at hp
     · simp only [e, if_false] at hp
-      have h1 := hI.fwd id r v hp hkey
+      have h1 := hK.fwd id r hp hkey
       rw [hidx, lookup_idxDrop]
       by_cases h2 : rk.key s = some v
-      · have h3 := hI.fwd k rk v hk h2
-        rw [h1] at h3
-        simp only [Option.some.injEq] at h3
-        exact absurd h3 e
+      · exact absurd (hK.unique hk h2 hp hkey) e
       · simp [h2, h1]
-  · intro v x hx
+  · intro x hx
     rw [hidx, lookup_idxDrop] at hx
     by_cases h2 : rk.key s = some v ∧ (cond = false ∨ AMap.lookup (st.idx s) v = some k)
     · simp [h2] at hx
     · simp only [h2, if_false] at hx
-      obtain ⟨r', hr', hkr'⟩ := hI.bwd v x hx
+      obtain ⟨r', hr', hkr'⟩ := hK.bwd x hx
       by_cases e : x = k
       · subst e
         rw [hk] at hr'
@@ -156,15 +159,15 @@ theorem invS_delete {s : Bool} {st st' : State} (hI : InvS s st) (k : Nat) (rk :
       · exact ⟨r', by rw [hprim]; simp [e, hr'], hkr'⟩
 
 /-- `Upd.reindex`: primary `k` (old record `old`) gets record `nr`; the entry of a changed old key is dropped -/
-theorem invS_reindex {s : Bool} {st st' : State} (hI : InvS s st) (k : Nat) (old nr : Rec) (cond : Bool)
+theorem kinv_reindex {s : Bool} {v : Nat} {st st' : State} (hK : KInv s v st) (k : Nat) (old nr : Rec) (cond : Bool)
     (hk : AMap.lookup st.prim k = some old)
     (hprim : ∀ id, AMap.lookup st'.prim id = if id = k then some nr else AMap.lookup st.prim id)
-    (hidx : ∀ v, AMap.lookup (st'.idx s) v =
+    (hidx : AMap.lookup (st'.idx s) v =
       AMap.lookup (reindexSlot cond (st.idx s) (old.key s) (nr.key s) k) v)
-    (hother : ∀ id' r' v, nr.key s = some v → AMap.lookup st.prim id' = some r' → r'.key s = some v → id' = k) :
-    InvS s st' := by
+    (hother : nr.key s = some v → ∀ id' r', AMap.lookup st.prim id' = some r' → r'.key s = some v → id' = k) :
+    KInv s v st' := by
   constructor
-  · intro id r v hp hkey
+  · intro id r hp hkey
     rw [hprim] at hp
     rw [hidx, lookup_reindexSlot]
     by_cases e : id = k
@@ -173,20 +176,17 @@ theorem invS_reindex {s : Bool} {st st' : State} (hI : InvS s st) (k : Nat) (old
       subst hp
       simp [hkey]
     · simp only [e, if_false] at hp
-      have h1 := hI.fwd id r v hp hkey
+      have h1 := hK.fwd id r hp hkey
       by_cases h2 : nr.key s = some v
-      · exact absurd (hother id r v h2 hp hkey) e
+      · exact absurd (hother h2 id r hp hkey) e
       · simp only [h2, if_false]
         by_cases h3 : old.key s = nr.key s
         · simp [h3, h1]
         · simp only [h3, if_false]
           by_cases h4 : old.key s = some v
-          · have h5 := hI.fwd k old v hk h4
-            rw [h1] at h5
-            simp only [Option.some.injEq] at h5
-            exact absurd h5 e
+          · exact absurd (hK.unique hk h4 hp hkey) e
           · simp [h4, h1]
-  · intro v x hx
+  · intro x hx
     rw [hidx, lookup_reindexSlot] at hx
     by_cases h2 : nr.key s = some v
     · simp only [h2, if_true, Option.some.injEq] at hx
@@ -195,7 +195,7 @@ theorem invS_reindex {s : Bool} {st st' : State} (hI : InvS s st) (k : Nat) (old
     · simp only [h2, if_false] at hx
       by_cases h3 : old.key s = nr.key s
       · simp only [h3, if_true] at hx
-        obtain ⟨r', hr', hkr'⟩ := hI.bwd v x hx
+        obtain ⟨r', hr', hkr'⟩ := hK.bwd x hx
         by_cases e : x = k
         · subst e
           rw [hk] at hr'
@@ -208,7 +208,7 @@ theorem invS_reindex {s : Bool} {st st' : State} (hI : InvS s st) (k : Nat) (old
         by_cases h4 : old.key s = some v ∧ (cond = false ∨ AMap.lookup (st.idx s) v = some k)
         · simp [h4] at hx
         · simp only [h4, if_false] at hx
-          obtain ⟨r', hr', hkr'⟩ := hI.bwd v x hx
+          obtain ⟨r', hr', hkr'⟩ := hK.bwd x hx
           by_cases e : x = k
           · subst e
             rw [hk] at hr'
@@ -217,18 +217,27 @@ theorem invS_reindex {s : Bool} {st st' : State} (hI : InvS s st) (k : Nat) (old
             exact absurd ⟨hkr', Or.inr hx⟩ h4
           · exact ⟨r', by rw [hprim]; simp [e, hr'], hkr'⟩
 
-/-! ### the state after each operation, as lookups -/
+/-! ### the state after `putRaw` / `create` / `load`, as lookups -/
 
-theorem idx_mk (p : AMap Nat Rec) (a b : AMap Nat Nat) (n : Nat) (s : Bool) :
-    State.idx { prim := p, i0 := a, i1 := b, next := n } s = (match s with | false => a | true => b) := by
-  cases s <;> rfl
+theorem putRaw_prim (st : State) (e : Nat × Rec) (id : Nat) :
+    AMap.lookup (putRaw st e).prim id = if id = e.1 then some e.2 else AMap.lookup st.prim id := by
+  simp [putRaw, lookup_insert]
+
+theorem putRaw_idx (st : State) (e : Nat × Rec) (s : Bool) (v : Nat) :
+    AMap.lookup ((putRaw st e).idx s) v = if e.2.key s = some v then some e.1 else AMap.lookup (st.idx s) v := by
+  cases s
+  · show AMap.lookup (idxPut st.i0 e.2.k0 e.1) v = _
+    rw [lookup_idxPut]; rfl
+  · show AMap.lookup (idxPut st.i1 e.2.k1 e.1) v = _
+    rw [lookup_idxPut]; rfl
+
+theorem putRaw_next (st : State) (e : Nat × Rec) : st.next ≤ (putRaw st e).next ∧ e.1 < (putRaw st e).next := by
+  simp only [putRaw]
+  split <;> omega
 
 theorem create_state {c : Cfg} {st : State} {id? : Option Nat} {k0 k1 : Option Nat}
     (hb : (dupBlocks c.dup0 st.i0 k0 id? || dupBlocks c.dup1 st.i1 k1 id?) = false) :
-    (create c st id? k0 k1).1 =
-      { prim := AMap.insert st.prim (id?.getD st.next) ⟨k0, k1⟩,
-        i0 := idxPut st.i0 k0 (id?.getD st.next), i1 := idxPut st.i1 k1 (id?.getD st.next),
-        next := if st.next ≤ id?.getD st.next then id?.getD st.next + 1 else st.next } := by
+    (create c st id? k0 k1).1 = putRaw st (id?.getD st.next, ⟨k0, k1⟩) := by
   unfold create
   simp [hb]
 
@@ -238,32 +247,21 @@ theorem create_blocked {c : Cfg} {st : State} {id? : Option Nat} {k0 k1 : Option
   unfold create
   simp [hb]
 
-theorem create_idx {c : Cfg} {st : State} {id? : Option Nat} {k0 k1 : Option Nat}
-    (hb : (dupBlocks c.dup0 st.i0 k0 id? || dupBlocks c.dup1 st.i1 k1 id?) = false) (s : Bool) (v : Nat) :
-    AMap.lookup ((create c st id? k0 k1).1.idx s) v =
-      if (Rec.mk k0 k1).key s = some v then some (id?.getD st.next) else AMap.lookup (st.idx s) v := by
-  rw [create_state hb]
-  cases s
-  · show AMap.lookup (idxPut st.i0 k0 (id?.getD st.next)) v = _
-    rw [lookup_idxPut]; rfl
-  · show AMap.lookup (idxPut st.i1 k1 (id?.getD st.next)) v = _
-    rw [lookup_idxPut]; rfl
-
-theorem create_prim {c : Cfg} {st : State} {id? : Option Nat} {k0 k1 : Option Nat}
-    (hb : (dupBlocks c.dup0 st.i0 k0 id? || dupBlocks c.dup1 st.i1 k1 id?) = false) (id : Nat) :
-    AMap.lookup (create c st id? k0 k1).1.prim id =
-      if id = id?.getD st.next then some ⟨k0, k1⟩ else AMap.lookup st.prim id := by
-  rw [create_state hb]
-  simp [lookup_insert]
-
-theorem create_next {c : Cfg} {st : State} {id? : Option Nat} {k0 k1 : Option Nat}
-    (hb : (dupBlocks c.dup0 st.i0 k0 id? || dupBlocks c.dup1 st.i1 k1 id?) = false) :
-    st.next ≤ (create c st id? k0 k1).1.next ∧ id?.getD st.next < (create c st id? k0 k1).1.next := by
-  rw [create_state hb]
-  simp only
-  split <;> omega
-
 /-! ### Fresh: every flavour, every history -/
+
+theorem fresh_putRaw {st : State} (hF : Fresh st) (e : Nat × Rec) : Fresh (putRaw st e) := by
+  intro x rx hx
+  rw [putRaw_prim] at hx
+  have hn := putRaw_next st e
+  by_cases h : x = e.1
+  · rw [h]; exact hn.2
+  · simp only [h, if_false] at hx
+    exact Nat.lt_of_lt_of_le (hF x rx hx) hn.1
+
+theorem fresh_puts {st : State} (hF : Fresh st) (l : List (Nat × Rec)) : Fresh (l.foldl putRaw st) := by
+  induction l generalizing st with
+  | nil => exact hF
+  | cons e rest ih => exact ih (fresh_putRaw hF e)
 
 theorem fresh_insert_live {st : State} (hF : Fresh st) {id : Nat} {r : Rec} (nr : Rec)
     (h : AMap.lookup st.prim id = some r) {p : AMap Nat Rec}
@@ -284,14 +282,7 @@ theorem fresh_step (c : Cfg) {st : State} (hF : Fresh st) (op : Op) : Fresh (ste
       simp only
       cases hb : (dupBlocks c.dup0 st.i0 k0 id? || dupBlocks c.dup1 st.i1 k1 id?) with
       | true => rw [create_blocked hb]; exact hF
-      | false =>
-        intro x rx hx
-        rw [create_prim hb] at hx
-        have hn := create_next (c := c) (st := st) (id? := id?) (k0 := k0) (k1 := k1) hb
-        by_cases e : x = id?.getD st.next
-        · rw [e]; exact hn.2
-        · simp only [e, if_false] at hx
-          exact Nat.lt_of_lt_of_le (hF x rx hx) hn.1
+      | false => rw [create_state hb]; exact fresh_putRaw hF _
     | update id k0 k1 =>
       simp only [update]
       cases h : AMap.lookup st.prim id with
@@ -324,6 +315,9 @@ theorem fresh_step (c : Cfg) {st : State} (hF : Fresh st) (op : Op) : Fresh (ste
     | get id => exact hF
     | byKey slot v => exact hF
     | list => exact hF
+    | load l =>
+      simp only [load]
+      exact fresh_puts (fun id r h => by simp at h) l
   · simp only [ha, Bool.not_false, if_true]
     exact hF
 
@@ -332,7 +326,7 @@ theorem fresh_run (c : Cfg) {st : State} (hF : Fresh st) (ops : List Op) : Fresh
   | nil => exact hF
   | cons op rest ih => exact ih (fresh_step c hF op)
 
-/-! ### the hypotheses of the partial theorems -/
+/-! ### the per-key hypotheses of the partial theorems -/
 
 /-- some live primary other than `id` carries key `k` in `slot` -/
 def carriedByOther (st : State) (id : Option Nat) (slot : Bool) (k : Option Nat) : Bool :=
@@ -350,298 +344,279 @@ theorem not_carried {st : State} {id : Option Nat} {slot : Bool} {k : Option Nat
   simp only [hkey, beq_self_eq_true, Bool.and_true, bne_iff_ne, ne_eq, Decidable.not_not] at this
   exact this
 
-/-- the operation gives no secondary key to a primary while ANOTHER live primary carries that key -/
-def opOnePerKey (st : State) : Op → Bool
-  | .create id k0 k1 => !carriedByOther st id false k0 && !carriedByOther st id true k1
-  | .update id k0 k1 => !carriedByOther st (some id) false k0 && !carriedByOther st (some id) true k1
-  | .setKey id slot v => !carriedByOther st (some id) slot (some v)
+/-- storing record `e.2` under id `e.1` does not give `(s, v)` to it while ANOTHER live primary carries `(s, v)` -/
+def putOneAt (st : State) (s : Bool) (v : Nat) (e : Nat × Rec) : Bool :=
+  !(e.2.key s == some v) || !carriedByOther st (some e.1) s (some v)
+
+/-- storing record `e.2` under id `e.1` does not take `(s, v)` away from a LIVE primary `e.1` (its index entry would
+    stay behind) -/
+def putKeepAt (st : State) (s : Bool) (v : Nat) (e : Nat × Rec) : Bool :=
+  match AMap.lookup st.prim e.1 with
+  | some old => !(old.key s == some v) || e.2.key s == some v
+  | none => true
+
+def putsOneAt (s : Bool) (v : Nat) : State → List (Nat × Rec) → Bool
+  | _, [] => true
+  | st, e :: rest => putOneAt st s v e && putsOneAt s v (putRaw st e) rest
+
+def putsKeepAt (s : Bool) (v : Nat) : State → List (Nat × Rec) → Bool
+  | _, [] => true
+  | st, e :: rest => putKeepAt st s v e && putsKeepAt s v (putRaw st e) rest
+
+/-- the operation does not give key `(s, v)` to a primary while ANOTHER live primary carries `(s, v)` -/
+def opOnePerKeyAt (st : State) (s : Bool) (v : Nat) : Op → Bool
+  | .create id k0 k1 => putOneAt st s v (id.getD st.next, ⟨k0, k1⟩)
+  | .update id k0 k1 => putOneAt st s v (id, ⟨k0, k1⟩)
+  | .setKey id slot w => !(slot == s && w == v) || !carriedByOther st (some id) s (some v)
+  | .load l => putsOneAt s v { next := st.next } l
   | _ => true
 
-/-- the operation does not change a key of a LIVE primary along a path that leaves the index alone:
-    create/save under the id of a live primary repeats its keys; an update that does not re-index repeats the keys;
-    an assignment fills an empty slot or repeats the key -/
-def opNoRekey (c : Cfg) (st : State) : Op → Bool
-  | .create (some id) k0 k1 =>
-    (match AMap.lookup st.prim id with
-     | some r => r == ⟨k0, k1⟩
-     | none => true)
+/-- the operation does not move a LIVE primary onto or off key `(s, v)` along a path that leaves the index alone:
+    create/save under the id of a live primary that carries `(s, v)` keeps `(s, v)`; an update that does not re-index
+    neither adds nor removes `(s, v)`; an assignment does not replace `(s, v)` by another value -/
+def opNoRekeyAt (c : Cfg) (st : State) (s : Bool) (v : Nat) : Op → Bool
+  | .create id k0 k1 => putKeepAt st s v (id.getD st.next, ⟨k0, k1⟩)
   | .update id k0 k1 =>
     c.upd == .reindex ||
     (match AMap.lookup st.prim id with
-     | some r => r == ⟨k0, k1⟩
+     | some old => (old.key s == some v) == ((Rec.mk k0 k1).key s == some v)
      | none => true)
-  | .setKey id slot v =>
+  | .setKey id slot w =>
     (match AMap.lookup st.prim id with
-     | some r => r.key slot == none || r.key slot == some v
+     | some r => !(slot == s && w != v && r.key s == some v)
      | none => true)
+  | .load l => putsKeepAt s v { next := st.next } l
   | _ => true
 
-/-- the operation is refused / has no effect -/
+/-- the operation is refused / changes nothing -/
 def noEffect (c : Cfg) (st : State) (op : Op) : Bool := decide ((step c st op).1 = st)
 
-/-- the history never gives one secondary key to two simultaneously live primaries (operations the code refuses or
-    that change nothing are exempt) -/
-def OnePerKey (c : Cfg) : State → List Op → Prop
+/-- along the history key `(s, v)` is never given to two simultaneously live primaries (operations the code refuses
+    or that change nothing are exempt; what happens to OTHER keys is irrelevant) -/
+def OnePerKeyAt (c : Cfg) (s : Bool) (v : Nat) : State → List Op → Prop
   | _, [] => True
-  | st, op :: rest => (noEffect c st op || opOnePerKey st op) = true ∧ OnePerKey c (step c st op).1 rest
+  | st, op :: rest => (noEffect c st op || opOnePerKeyAt st s v op) = true ∧ OnePerKeyAt c s v (step c st op).1 rest
 
-/-- the history never re-keys a live primary along a path that does not maintain the indexes -/
-def NoRekey (c : Cfg) : State → List Op → Prop
+/-- along the history no live primary is moved onto or off key `(s, v)` through a path that does not maintain the
+    index -/
+def NoRekeyAt (c : Cfg) (s : Bool) (v : Nat) : State → List Op → Prop
   | _, [] => True
-  | st, op :: rest => (noEffect c st op || opNoRekey c st op) = true ∧ NoRekey c (step c st op).1 rest
+  | st, op :: rest => (noEffect c st op || opNoRekeyAt c st s v op) = true ∧ NoRekeyAt c s v (step c st op).1 rest
 
-/-! ### preservation of the bijection on clean histories -/
+/-! ### preservation of the per-key bijection -/
 
-theorem inv_create {c : Cfg} {st : State} (hI : Inv st) (id? : Option Nat) (k0 k1 : Option Nat)
-    (h1 : opOnePerKey st (.create id? k0 k1) = true) (h2 : opNoRekey c st (.create id? k0 k1) = true) :
-    Inv (create c st id? k0 k1).1 := by
-  cases hb : (dupBlocks c.dup0 st.i0 k0 id? || dupBlocks c.dup1 st.i1 k1 id?) with
-  | true => rw [create_blocked hb]; exact hI
-  | false =>
-    have hF : Fresh (create c st id? k0 k1).1 := by
-      intro x rx hx
-      rw [create_prim hb] at hx
-      have hn := create_next (c := c) (st := st) (id? := id?) (k0 := k0) (k1 := k1) hb
-      by_cases e : x = id?.getD st.next
-      · rw [e]; exact hn.2
-      · simp only [e, if_false] at hx
-        exact Nat.lt_of_lt_of_le (hI.fresh x rx hx) hn.1
-    refine ⟨fun s => ?_, hF⟩
-    apply invS_put (hI.slot s) (id?.getD st.next) ⟨k0, k1⟩ (create_prim hb) (create_idx hb s)
-    · -- the id is not live, or names a primary with exactly these keys
-      intro r v hr hk
-      cases id? with
-      | none =>
-        exact absurd (hI.fresh _ r hr) (Nat.lt_irrefl _)
-      | some id =>
-        simp only [opNoRekey, Option.getD_some] at h2 hr
-        rw [hr] at h2
-        have : r = ⟨k0, k1⟩ := by simpa using h2
-        rw [← this]; exact hk
-    · intro id' r' v hk hp hkr
-      simp only [opOnePerKey, Bool.and_eq_true, Bool.not_eq_true'] at h1
-      have hc : carriedByOther st id? s ((Rec.mk k0 k1).key s) = false := by
-        cases s
-        · exact h1.1
-        · exact h1.2
-      have := not_carried hc id' r' v hk hp hkr
-      cases id? with
-      | none => cases this
-      | some id => simpa using this
+theorem kinv_putRaw {s : Bool} {v : Nat} {st : State} (hK : KInv s v st) (e : Nat × Rec)
+    (h1 : putOneAt st s v e = true) (h2 : putKeepAt st s v e = true) : KInv s v (putRaw st e) := by
+  apply kinv_put hK e.1 e.2 (putRaw_prim st e) (putRaw_idx st e s v)
+  · intro r hr hk
+    simp only [putKeepAt, hr, hk, beq_self_eq_true, Bool.not_true, Bool.false_or, beq_iff_eq] at h2
+    exact h2
+  · intro hk id' r' hp hkr
+    simp only [putOneAt, hk, beq_self_eq_true, Bool.not_true, Bool.false_or, Bool.not_eq_true'] at h1
+    simpa using not_carried h1 id' r' v rfl hp hkr
 
-theorem inv_same_rec {st : State} (hI : Inv st) (id : Nat) (r : Rec) (h : AMap.lookup st.prim id = some r) :
-    Inv { st with prim := AMap.insert st.prim id r } := by
-  have hp : ∀ x, AMap.lookup (AMap.insert st.prim id r) x = AMap.lookup st.prim x := by
-    intro x
-    rw [lookup_insert]
-    by_cases e : x = id
-    · simp [e, h]
-    · simp [e]
-  refine ⟨fun s => ⟨?_, ?_⟩, ?_⟩
-  · intro x rx v hx hk
-    have hx' : AMap.lookup st.prim x = some rx := by rw [← hp]; exact hx
-    have := (hI.slot s).fwd x rx v hx' hk
-    cases s <;> exact this
-  · intro v x hx
-    have hx' : AMap.lookup (st.idx s) v = some x := by cases s <;> exact hx
-    obtain ⟨rx, h1, h2⟩ := (hI.slot s).bwd v x hx'
-    exact ⟨rx, by show AMap.lookup (AMap.insert st.prim id r) x = some rx; rw [hp]; exact h1, h2⟩
-  · intro x rx hx
-    have hx' : AMap.lookup st.prim x = some rx := by rw [← hp]; exact hx
-    exact hI.fresh x rx hx'
+theorem kinv_puts {s : Bool} {v : Nat} {st : State} (hK : KInv s v st) (l : List (Nat × Rec))
+    (h1 : putsOneAt s v st l = true) (h2 : putsKeepAt s v st l = true) : KInv s v (l.foldl putRaw st) := by
+  induction l generalizing st with
+  | nil => exact hK
+  | cons e rest ih =>
+    simp only [putsOneAt, putsKeepAt, Bool.and_eq_true] at h1 h2
+    exact ih (kinv_putRaw hK e h1.1 h2.1) h1.2 h2.2
 
-theorem inv_update {c : Cfg} {st : State} (hI : Inv st) (id : Nat) (k0 k1 : Option Nat)
-    (h1 : opOnePerKey st (.update id k0 k1) = true) (h2 : opNoRekey c st (.update id k0 k1) = true) :
-    Inv (update c st id k0 k1).1 := by
+theorem kinv_update {c : Cfg} {s : Bool} {v : Nat} {st : State} (hK : KInv s v st) (id : Nat) (k0 k1 : Option Nat)
+    (h1 : opOnePerKeyAt st s v (.update id k0 k1) = true) (h2 : opNoRekeyAt c st s v (.update id k0 k1) = true) :
+    KInv s v (update c st id k0 k1).1 := by
+  have hoth : (Rec.mk k0 k1).key s = some v →
+      ∀ id' r', AMap.lookup st.prim id' = some r' → r'.key s = some v → id' = id := by
+    intro hk id' r' hp hkr
+    simp only [opOnePerKeyAt, putOneAt, hk, beq_self_eq_true, Bool.not_true, Bool.false_or,
+      Bool.not_eq_true'] at h1
+    simpa using not_carried h1 id' r' v rfl hp hkr
   unfold update
   cases h : AMap.lookup st.prim id with
-  | none => exact hI
+  | none => exact hK
   | some old =>
     simp only
     cases hu : c.upd with
     | primaryOnly =>
-      simp only [opNoRekey, hu, h] at h2
-      have : old = ⟨k0, k1⟩ := by simpa using h2
-      rw [← this]
-      exact inv_same_rec hI id old h
+      simp only [opNoRekeyAt, hu, h] at h2
+      have hiff : old.key s = some v ↔ (Rec.mk k0 k1).key s = some v := by
+        have : (old.key s == some v) = ((Rec.mk k0 k1).key s == some v) := by simpa using h2
+        constructor
+        · intro a; simpa [a] using this.symm
+        · intro a; simpa [a] using this
+      apply kinv_put hK id ⟨k0, k1⟩
+      · intro x; simp [lookup_insert]
+      · show AMap.lookup (st.idx s) v = _
+        by_cases hk : (Rec.mk k0 k1).key s = some v
+        · simp only [hk, if_true]
+          exact hK.fwd id old h (hiff.mpr hk)
+        · simp [hk]
+      · intro r hr hk
+        rw [h] at hr
+        simp only [Option.some.injEq] at hr
+        subst hr
+        exact hiff.mp hk
+      · exact hoth
     | reindex =>
       simp only
-      have hF : Fresh { st with prim := AMap.insert st.prim id ⟨k0, k1⟩,
-                                i0 := reindexSlot c.condDelete st.i0 old.k0 k0 id,
-                                i1 := reindexSlot c.condDelete st.i1 old.k1 k1 id } :=
-        fresh_insert_live hI.fresh ⟨k0, k1⟩ h (fun x => by simp [lookup_insert])
-      refine ⟨fun s => ?_, hF⟩
-      apply invS_reindex (hI.slot s) id old ⟨k0, k1⟩ c.condDelete h
+      apply kinv_reindex hK id old ⟨k0, k1⟩ c.condDelete h
       · intro x; simp [lookup_insert]
-      · intro v; cases s <;> rfl
-      · intro id' r' v hk hp hkr
-        simp only [opOnePerKey, Bool.and_eq_true, Bool.not_eq_true'] at h1
-        have hc : carriedByOther st (some id) s ((Rec.mk k0 k1).key s) = false := by
-          cases s
-          · exact h1.1
-          · exact h1.2
-        simpa using not_carried hc id' r' v hk hp hkr
+      · cases s <;> rfl
+      · exact hoth
 
-theorem inv_setKey {c : Cfg} {st : State} (hI : Inv st) (id : Nat) (slot : Bool) (v : Nat)
-    (h1 : opOnePerKey st (.setKey id slot v) = true) (h2 : opNoRekey c st (.setKey id slot v) = true) :
-    Inv (setKey st id slot v).1 := by
+theorem kinv_setKey {c : Cfg} {s : Bool} {v : Nat} {st : State} (hK : KInv s v st) (id : Nat) (slot : Bool) (w : Nat)
+    (h1 : opOnePerKeyAt st s v (.setKey id slot w) = true) (h2 : opNoRekeyAt c st s v (.setKey id slot w) = true) :
+    KInv s v (setKey st id slot w).1 := by
   unfold setKey
   cases h : AMap.lookup st.prim id with
-  | none => exact hI
+  | none => exact hK
   | some r =>
-    simp only [opNoRekey, h, Bool.or_eq_true, beq_iff_eq] at h2
-    simp only [opOnePerKey, Bool.not_eq_true'] at h1
-    have hoth := not_carried h1
-    -- common argument, for the slot being assigned (`s = slot`) and for the other one
-    have key_same : ∀ s, s ≠ slot → (r.set slot (some v)).key s = r.key s := by
-      intro s hs; cases s <;> cases slot <;> simp_all [Rec.set, Rec.key]
-    have key_new : (r.set slot (some v)).key slot = some v := by
+    simp only [opNoRekeyAt, h] at h2
+    simp only [opOnePerKeyAt] at h1
+    have key_same : s ≠ slot → (r.set slot (some w)).key s = r.key s := by
+      intro hs; cases s <;> cases slot <;> simp_all [Rec.set, Rec.key]
+    have key_new : (r.set slot (some w)).key slot = some w := by
       cases slot <;> simp [Rec.set, Rec.key]
     have main : ∀ (st' : State),
-        (∀ x, AMap.lookup st'.prim x = if x = id then some (r.set slot (some v)) else AMap.lookup st.prim x) →
-        (∀ w, AMap.lookup (st'.idx slot) w = if w = v then some id else AMap.lookup (st.idx slot) w) →
-        (∀ w, AMap.lookup (st'.idx (!slot)) w = AMap.lookup (st.idx (!slot)) w) →
-        st'.next = st.next → Inv st' := by
-      intro st' hp hi hni hn
-      refine ⟨fun s => ?_, ?_⟩
-      · apply invS_put (hI.slot s) id (r.set slot (some v)) hp
-        · intro w
-          by_cases es : s = slot
-          · subst es
-            rw [hi, key_new]
-            by_cases ew : w = v
-            · simp [ew]
-            · have : ¬ v = w := fun x => ew x.symm
-              simp [ew, this]
-          · have : s = !slot := by cases s <;> cases slot <;> simp_all
-            rw [this, hni, ← this, key_same s es]
-            by_cases hk : r.key s = some w
-            · simp only [hk, if_true]
-              exact (hI.slot s).fwd id r w h hk
-            · simp [hk]
-        · intro r' w hr' hk
-          rw [h] at hr'
-          simp only [Option.some.injEq] at hr'
-          subst hr'
-          by_cases es : s = slot
-          · subst es
-            rw [key_new]
-            rcases h2 with h2 | h2
-            · rw [h2] at hk; cases hk
-            · rw [h2] at hk; exact hk
-          · rw [key_same s es]; exact hk
-        · intro id' r' w hk hp' hkr
-          by_cases es : s = slot
-          · subst es
-            rw [key_new] at hk
-            simp only [Option.some.injEq] at hk
-            subst hk
-            simpa using hoth id' r' _ rfl hp' hkr
-          · rw [key_same s es] at hk
-            have a := (hI.slot s).fwd id r w h hk
-            have b := (hI.slot s).fwd id' r' w hp' hkr
-            rw [a] at b
-            simpa using b.symm
-      · intro x rx hx
-        rw [hn]
-        exact fresh_insert_live hI.fresh _ h hp x rx hx
+        (∀ x, AMap.lookup st'.prim x = if x = id then some (r.set slot (some w)) else AMap.lookup st.prim x) →
+        (∀ u, AMap.lookup (st'.idx slot) u = if u = w then some id else AMap.lookup (st.idx slot) u) →
+        (∀ u, AMap.lookup (st'.idx (!slot)) u = AMap.lookup (st.idx (!slot)) u) → KInv s v st' := by
+      intro st' hp hi hni
+      apply kinv_put hK id (r.set slot (some w)) hp
+      · by_cases es : s = slot
+        · subst es
+          rw [hi, key_new]
+          by_cases ew : v = w
+          · simp [ew]
+          · have : ¬ w = v := fun x => ew x.symm
+            simp [ew, this]
+        · have hs' : s = !slot := by cases s <;> cases slot <;> simp_all
+          rw [hs', hni, ← hs', key_same es]
+          by_cases hk : r.key s = some v
+          · simp only [hk, if_true]
+            exact hK.fwd id r h hk
+          · simp [hk]
+      · intro r' hr' hk
+        rw [h] at hr'
+        simp only [Option.some.injEq] at hr'
+        subst hr'
+        by_cases es : s = slot
+        · subst es
+          rw [key_new]
+          by_cases ew : w = v
+          · rw [ew]
+          · simp [hk, ew] at h2
+        · rw [key_same es]; exact hk
+      · intro hk id' r' hp' hkr
+        by_cases es : s = slot
+        · subst es
+          rw [key_new] at hk
+          simp only [Option.some.injEq] at hk
+          subst hk
+          simp only [beq_self_eq_true, Bool.and_self, Bool.not_true, Bool.false_or, Bool.not_eq_true'] at h1
+          simpa using not_carried h1 id' r' _ rfl hp' hkr
+        · rw [key_same es] at hk
+          exact hK.unique h hk hp' hkr
     cases slot with
     | false =>
       apply main
       · intro x; simp [lookup_insert]
-      · intro w; simp [State.idx, lookup_insert]
-      · intro w; rfl
-      · rfl
+      · intro u; simp [State.idx, lookup_insert]
+      · intro u; rfl
     | true =>
       apply main
       · intro x; simp [lookup_insert]
-      · intro w; simp [State.idx, lookup_insert]
-      · intro w; rfl
-      · rfl
+      · intro u; simp [State.idx, lookup_insert]
+      · intro u; rfl
 
-theorem inv_delete {c : Cfg} {st : State} (hI : Inv st) (id : Nat) : Inv (delete c st id).1 := by
+theorem kinv_delete_op {c : Cfg} {s : Bool} {v : Nat} {st : State} (hK : KInv s v st) (id : Nat) :
+    KInv s v (delete c st id).1 := by
   unfold delete
   cases h : AMap.lookup st.prim id with
-  | none => exact hI
+  | none => exact hK
   | some r =>
     simp only
-    refine ⟨fun s => ?_, ?_⟩
-    · apply invS_delete (hI.slot s) id r c.condDelete h
-      · intro x; simp [lookup_erase]
-      · intro v; cases s <;> rfl
-    · intro x rx hx
-      simp only [lookup_erase] at hx
-      by_cases e : x = id
-      · simp [e] at hx
-      · simp only [e, if_false] at hx; exact hI.fresh x rx hx
+    apply kinv_delete hK id r c.condDelete h
+    · intro x; simp [lookup_erase]
+    · cases s <;> rfl
 
-theorem inv_step {c : Cfg} {st : State} (hI : Inv st) (op : Op)
-    (h1 : (noEffect c st op || opOnePerKey st op) = true)
-    (h2 : (noEffect c st op || opNoRekey c st op) = true) : Inv (step c st op).1 := by
+theorem kinv_step {c : Cfg} {s : Bool} {v : Nat} {st : State} (hK : KInv s v st) (op : Op)
+    (h1 : (noEffect c st op || opOnePerKeyAt st s v op) = true)
+    (h2 : (noEffect c st op || opNoRekeyAt c st s v op) = true) : KInv s v (step c st op).1 := by
   by_cases hn : noEffect c st op = true
   · simp only [noEffect, decide_eq_true_eq] at hn
-    rw [hn]; exact hI
+    rw [hn]; exact hK
   · simp only [hn, Bool.false_or] at h1 h2
     unfold step
     by_cases ha : c.accepts op = true
     · simp only [ha, Bool.not_true, Bool.false_eq_true, if_false]
       cases op with
-      | create id? k0 k1 => exact inv_create hI id? k0 k1 h1 h2
-      | update id k0 k1 => exact inv_update hI id k0 k1 h1 h2
-      | setKey id slot v => exact inv_setKey (c := c) hI id slot v h1 h2
-      | delete id => exact inv_delete hI id
-      | get id => exact hI
-      | byKey slot v => exact hI
-      | list => exact hI
+      | create id? k0 k1 =>
+        simp only
+        cases hb : (dupBlocks c.dup0 st.i0 k0 id? || dupBlocks c.dup1 st.i1 k1 id?) with
+        | true => rw [create_blocked hb]; exact hK
+        | false => rw [create_state hb]; exact kinv_putRaw hK _ h1 h2
+      | update id k0 k1 => exact kinv_update hK id k0 k1 h1 h2
+      | setKey id slot w => exact kinv_setKey (c := c) hK id slot w h1 h2
+      | delete id => exact kinv_delete_op hK id
+      | get id => exact hK
+      | byKey slot w => exact hK
+      | list => exact hK
+      | load l => exact kinv_puts (kinv_empty s v st.next) l h1 h2
     · simp only [ha, Bool.not_false, if_true]
-      exact hI
+      exact hK
 
-theorem inv_run {c : Cfg} {st : State} (hI : Inv st) (ops : List Op)
-    (h1 : OnePerKey c st ops) (h2 : NoRekey c st ops) : Inv (run c st ops) := by
+theorem kinv_run {c : Cfg} {s : Bool} {v : Nat} {st : State} (hK : KInv s v st) (ops : List Op)
+    (h1 : OnePerKeyAt c s v st ops) (h2 : NoRekeyAt c s v st ops) : KInv s v (run c st ops) := by
   induction ops generalizing st with
-  | nil => exact hI
-  | cons op rest ih =>
-    exact ih (inv_step hI op h1.1 h2.1) h1.2 h2.2
+  | nil => exact hK
+  | cons op rest ih => exact ih (kinv_step hK op h1.1 h2.1) h1.2 h2.2
 
 /-! ### release frame -/
 
-theorem delete_frame {c : Cfg} {st : State} (hI : Inv st) (k : Nat) :
+/-- deleting `k` never touches another primary's record (no hypothesis) -/
+theorem delete_prim (c : Cfg) (st : State) (k : Nat) :
     (∀ id, id ≠ k → AMap.lookup (delete c st k).1.prim id = AMap.lookup st.prim id) ∧
-    AMap.lookup (delete c st k).1.prim k = none ∧
-    (∀ s v, AMap.lookup ((delete c st k).1.idx s) v =
-      if AMap.lookup (st.idx s) v = some k then none else AMap.lookup (st.idx s) v) := by
+    AMap.lookup (delete c st k).1.prim k = none := by
+  unfold delete
+  cases h : AMap.lookup st.prim k with
+  | none => exact ⟨fun _ _ => rfl, h⟩
+  | some r =>
+    simp only
+    exact ⟨fun id hne => by simp [lookup_erase, hne], by simp⟩
+
+/-- for a key whose entry agrees with the primary map, deleting `k` frees the entry exactly if it resolved to `k` -/
+theorem delete_frame_at {c : Cfg} {s : Bool} {v : Nat} {st : State} (hK : KInv s v st) (k : Nat) :
+    AMap.lookup ((delete c st k).1.idx s) v =
+      if AMap.lookup (st.idx s) v = some k then none else AMap.lookup (st.idx s) v := by
   unfold delete
   cases h : AMap.lookup st.prim k with
   | none =>
-    refine ⟨fun _ _ => rfl, h, ?_⟩
-    intro s v
     by_cases e : AMap.lookup (st.idx s) v = some k
-    · obtain ⟨r, hr, _⟩ := (hI.slot s).bwd v k e
+    · obtain ⟨r, hr, _⟩ := hK.bwd k e
       rw [h] at hr; cases hr
     · simp [e]
   | some r =>
     simp only
-    refine ⟨?_, by simp, ?_⟩
-    · intro id hne; simp [lookup_erase, hne]
-    · intro s v
-      have : AMap.lookup (State.idx { st with prim := AMap.erase st.prim k,
-                                              i0 := idxDrop c.condDelete st.i0 r.k0 k,
-                                              i1 := idxDrop c.condDelete st.i1 r.k1 k } s) v =
-             AMap.lookup (idxDrop c.condDelete (st.idx s) (r.key s) k) v := by cases s <;> rfl
-      rw [this, lookup_idxDrop]
-      by_cases e : AMap.lookup (st.idx s) v = some k
-      · obtain ⟨r', hr', hk'⟩ := (hI.slot s).bwd v k e
-        rw [h] at hr'
-        simp only [Option.some.injEq] at hr'
-        subst hr'
-        simp [hk', e]
-      · have : ¬ r.key s = some v := fun hk => e ((hI.slot s).fwd k r v h hk)
-        simp [this, e]
+    have : AMap.lookup (State.idx { st with prim := AMap.erase st.prim k,
+                                            i0 := idxDrop c.condDelete st.i0 r.k0 k,
+                                            i1 := idxDrop c.condDelete st.i1 r.k1 k } s) v =
+           AMap.lookup (idxDrop c.condDelete (st.idx s) (r.key s) k) v := by cases s <;> rfl
+    rw [this, lookup_idxDrop]
+    by_cases e : AMap.lookup (st.idx s) v = some k
+    · obtain ⟨r', hr', hk'⟩ := hK.bwd k e
+      rw [h] at hr'
+      simp only [Option.some.injEq] at hr'
+      subst hr'
+      simp [hk', e]
+    · have : ¬ r.key s = some v := fun hk => e (hK.fwd k r h hk)
+      simp [this, e]
 
-/-! ### subscriber.Manager: the MAC index is exact on EVERY history -/
+/-! ### subscriber.Manager: the MAC index is exact for every key on EVERY history -/
 
-theorem step_submgr_invS0 {st : State} (hI : InvS false st) (hF : Fresh st) (op : Op) :
-    InvS false (step submgr st op).1 := by
+theorem step_submgr_kinv0 {st : State} (hI : ∀ v, KInv false v st) (hF : Fresh st) (op : Op) (v : Nat) :
+    KInv false v (step submgr st op).1 := by
   unfold step
   by_cases ha : submgr.accepts op = true
   · simp only [ha, Bool.not_true, Bool.false_eq_true, if_false]
@@ -659,74 +634,112 @@ theorem step_submgr_invS0 {st : State} (hI : InvS false st) (hF : Fresh st) (op 
           | none =>
             simp only
             cases hb : (dupBlocks submgr.dup0 st.i0 (some m) none || dupBlocks submgr.dup1 st.i1 none none) with
-            | true => rw [create_blocked hb]; exact hI
+            | true => rw [create_blocked hb]; exact hI v
             | false =>
               have hfree : AMap.lookup st.i0 m = none := by
                 simp only [dupBlocks, submgr, Bool.or_false] at hb
                 cases e : AMap.lookup st.i0 m with
                 | none => rfl
                 | some h => simp [e] at hb
-              apply invS_put hI (Option.getD none st.next) ⟨some m, none⟩ (create_prim hb) (create_idx hb false)
-              · intro r v hr _
+              rw [create_state hb]
+              apply kinv_put (hI v) _ _ (putRaw_prim st _) (putRaw_idx st _ false v)
+              · intro r hr _
                 exact absurd (hF _ r hr) (Nat.lt_irrefl _)
-              · intro id' r' v hk hp hkr
+              · intro hk id' r' hp hkr
                 simp only [Rec.key, Option.some.injEq] at hk
                 subst hk
-                have := hI.fwd id' r' m hp hkr
+                have := (hI m).fwd id' r' hp hkr
                 simp only [State.idx] at this
                 rw [hfree] at this; cases this
     | update id k0 k1 => simp [submgr, submgrAccepts] at ha
-    | setKey id slot v =>
+    | setKey id slot w =>
       cases slot with
       | false => simp [submgr, submgrAccepts] at ha
       | true =>
         simp only [setKey]
         cases h : AMap.lookup st.prim id with
-        | none => exact hI
+        | none => exact hI v
         | some r =>
           simp only
-          apply invS_put hI id (r.set true (some v))
+          apply kinv_put (hI v) id (r.set true (some w))
           · intro x; simp [lookup_insert]
-          · intro w
-            show AMap.lookup st.i0 w = _
-            by_cases hk : r.k0 = some w
+          · show AMap.lookup st.i0 v = _
+            by_cases hk : r.k0 = some v
             · simp only [Rec.set, Rec.key, hk, if_true]
-              exact hI.fwd id r w h hk
+              exact (hI v).fwd id r h hk
             · simp [Rec.set, Rec.key, hk, State.idx]
-          · intro r' w hr' hk
+          · intro r' hr' hk
             rw [h] at hr'
             simp only [Option.some.injEq] at hr'
             subst hr'
             exact hk
-          · intro id' r' w hk hp hkr
-            have a := hI.fwd id r w h hk
-            have b := hI.fwd id' r' w hp hkr
-            rw [a] at b
-            simpa using b.symm
-    | delete id =>
-      simp only [delete]
-      cases h : AMap.lookup st.prim id with
-      | none => exact hI
-      | some r =>
-        simp only
-        apply invS_delete hI id r submgr.condDelete h
-        · intro x; simp [lookup_erase]
-        · intro v; rfl
-    | get id => exact hI
-    | byKey slot v => exact hI
-    | list => exact hI
+          · intro hk id' r' hp hkr
+            exact (hI v).unique h hk hp hkr
+    | delete id => exact kinv_delete_op (hI v) id
+    | get id => exact hI v
+    | byKey slot w => exact hI v
+    | list => exact hI v
+    | load l => simp [submgr, submgrAccepts] at ha
   · simp only [ha, Bool.not_false, if_true]
-    exact hI
+    exact hI v
 
-theorem run_submgr_invS0 {st : State} (hI : InvS false st) (hF : Fresh st) (ops : List Op) :
-    InvS false (run submgr st ops) := by
+theorem run_submgr_kinv0 {st : State} (hI : ∀ v, KInv false v st) (hF : Fresh st) (ops : List Op) :
+    ∀ v, KInv false v (run submgr st ops) := by
   induction ops generalizing st with
   | nil => exact hI
-  | cons op rest ih => exact ih (step_submgr_invS0 hI hF op) (fresh_step submgr hF op)
+  | cons op rest ih => exact ih (fun v => step_submgr_kinv0 hI hF op v) (fresh_step submgr hF op)
 
-/-! ### MemoryAllocationStore: every live allocation is found by its address, on EVERY history -/
+/-! ### MemoryAllocationStore: every live allocation is found by its address — on every history whose LOADS are
+    address-injective (SaveAllocation needs no hypothesis, UnmarshalJSON has no uniqueness check) -/
 
-theorem step_memstore_fwd {st : State} (hI : FwdS true st) (op : Op) : FwdS true (step memstore st op).1 := by
+/-- no two stored records with different ids share a key in slot `s` -/
+def loadInj (s : Bool) (l : List (Nat × Rec)) : Bool :=
+  l.all fun e => l.all fun e' => e.2.key s == none || e.2.key s != e'.2.key s || e.1 == e'.1
+
+/-- every load of the history is address-injective -/
+def LoadsInj (s : Bool) : List Op → Prop
+  | [] => True
+  | .load l :: rest => loadInj s l = true ∧ LoadsInj s rest
+  | _ :: rest => LoadsInj s rest
+
+theorem loadInj_spec {s : Bool} {l : List (Nat × Rec)} (h : loadInj s l = true) {e e' : Nat × Rec}
+    (he : e ∈ l) (he' : e' ∈ l) {v : Nat} (hk : e.2.key s = some v) (hk' : e'.2.key s = some v) : e.1 = e'.1 := by
+  simp only [loadInj, List.all_eq_true] at h
+  have := h e he e' he'
+  simpa [hk, hk'] using this
+
+theorem fwd_puts {s : Bool} {l : List (Nat × Rec)} (hl : loadInj s l = true) (rest : List (Nat × Rec)) {st : State}
+    (hsub : ∀ e, e ∈ rest → e ∈ l) (hI : FwdS s st)
+    (hmem : ∀ id r, AMap.lookup st.prim id = some r → (id, r) ∈ l) : FwdS s (rest.foldl putRaw st) := by
+  induction rest generalizing st with
+  | nil => exact hI
+  | cons e rest ih =>
+    have he : e ∈ l := hsub e (List.mem_cons_self ..)
+    apply ih (fun x hx => hsub x (List.mem_cons_of_mem _ hx))
+    · intro id r v hp hk
+      rw [putRaw_prim] at hp
+      rw [putRaw_idx]
+      by_cases h : id = e.1
+      · simp only [h, if_true, Option.some.injEq] at hp
+        subst hp
+        simp [hk, h]
+      · simp only [h, if_false] at hp
+        by_cases hk' : e.2.key s = some v
+        · have := loadInj_spec hl (hmem id r hp) he hk hk'
+          exact absurd this h
+        · simp only [hk', if_false]
+          exact hI id r v hp hk
+    · intro id r hp
+      rw [putRaw_prim] at hp
+      by_cases h : id = e.1
+      · simp only [h, if_true, Option.some.injEq] at hp
+        subst hp
+        rw [h]; exact he
+      · simp only [h, if_false] at hp
+        exact hmem id r hp
+
+theorem step_memstore_fwd {st : State} (hI : FwdS true st) (op : Op)
+    (hl : ∀ l, op = .load l → loadInj true l = true) : FwdS true (step memstore st op).1 := by
   unfold step
   by_cases ha : memstore.accepts op = true
   · simp only [ha, Bool.not_true, Bool.false_eq_true, if_false]
@@ -750,20 +763,20 @@ theorem step_memstore_fwd {st : State} (hI : FwdS true st) (op : Op) : FwdS true
                 simp only [dupBlocks, memstore, Bool.false_or, e] at hb
                 have : nid = h := by simpa using hb
                 exact this.symm
+              rw [create_state hb]
               intro id r v hp hk
-              rw [create_prim hb] at hp
-              rw [create_idx hb]
-              by_cases e : id = Option.getD (some nid) st.next
-              · simp only [e, if_true, Option.some.injEq] at hp
+              rw [putRaw_prim] at hp
+              rw [putRaw_idx]
+              by_cases e : id = nid
+              · simp only [Option.getD_some, e, if_true, Option.some.injEq] at hp
                 subst hp
                 simp [hk, e]
-              · simp only [e, if_false] at hp
+              · simp only [Option.getD_some, e, if_false] at hp
                 have h1 := hI id r v hp hk
                 by_cases hv : (Rec.mk none (some a)).key true = some v
                 · simp only [Rec.key, Option.some.injEq] at hv
                   subst hv
-                  have := hown id h1
-                  exact absurd (by simpa using this) e
+                  exact absurd (hown id h1) e
                 · simp only [hv, if_false]; exact h1
     | update id k0 k1 => simp [memstore, memAccepts] at ha
     | setKey id slot v => simp [memstore, memAccepts] at ha
@@ -790,12 +803,25 @@ theorem step_memstore_fwd {st : State} (hI : FwdS true st) (op : Op) : FwdS true
     | get id => exact hI
     | byKey slot v => exact hI
     | list => exact hI
+    | load l =>
+      simp only [load]
+      exact fwd_puts (hl l rfl) l (fun e he => he) (fun id r v h => by simp at h) (fun id r h => by simp at h)
   · simp only [ha, Bool.not_false, if_true]
     exact hI
 
-theorem run_memstore_fwd {st : State} (hI : FwdS true st) (ops : List Op) : FwdS true (run memstore st ops) := by
+theorem run_memstore_fwd {st : State} (hI : FwdS true st) (ops : List Op) (hl : LoadsInj true ops) :
+    FwdS true (run memstore st ops) := by
   induction ops generalizing st with
   | nil => exact hI
-  | cons op rest ih => exact ih (step_memstore_fwd hI op)
+  | cons op rest ih =>
+    cases op with
+    | load l => exact ih (step_memstore_fwd hI (.load l) (fun l' e => by cases e; exact hl.1)) hl.2
+    | create a b c => exact ih (step_memstore_fwd hI _ (fun l' e => by cases e)) hl
+    | update a b c => exact ih (step_memstore_fwd hI _ (fun l' e => by cases e)) hl
+    | setKey a b c => exact ih (step_memstore_fwd hI _ (fun l' e => by cases e)) hl
+    | delete a => exact ih (step_memstore_fwd hI _ (fun l' e => by cases e)) hl
+    | get a => exact ih (step_memstore_fwd hI _ (fun l' e => by cases e)) hl
+    | byKey a b => exact ih (step_memstore_fwd hI _ (fun l' e => by cases e)) hl
+    | list => exact ih (step_memstore_fwd hI _ (fun l' e => by cases e)) hl
 
 end Bng.Index
